@@ -9,6 +9,7 @@ import (
 	"go/types"
 	"net/textproto"
 	"sort"
+	"strconv"
 	"strings"
 
 	"github.com/getkin/kin-openapi/openapi3"
@@ -34,6 +35,23 @@ func extString(s *openapi3.Schema, key string) string {
 	return ""
 }
 
+// timeLayoutLit: x-goag-go-time-format holds a Go expression (a constant of
+// package time or a string literal); returns the quoted constant value.
+func timeLayoutLit(ext string) string {
+	std := map[string]string{
+		"time.Layout": "01/02 03:04:05PM '06 -0700", "time.ANSIC": "Mon Jan _2 15:04:05 2006", "time.UnixDate": "Mon Jan _2 15:04:05 MST 2006",
+		"time.RubyDate": "Mon Jan 02 15:04:05 -0700 2006", "time.RFC822": "02 Jan 06 15:04 MST", "time.RFC822Z": "02 Jan 06 15:04 -0700",
+		"time.RFC850": "Monday, 02-Jan-06 15:04:05 MST", "time.RFC1123": "Mon, 02 Jan 2006 15:04:05 MST", "time.RFC1123Z": "Mon, 02 Jan 2006 15:04:05 -0700",
+		"time.RFC3339": "2006-01-02T15:04:05Z07:00", "time.RFC3339Nano": "2006-01-02T15:04:05.999999999Z07:00", "time.Kitchen": "3:04PM",
+		"time.Stamp": "Jan _2 15:04:05", "time.StampMilli": "Jan _2 15:04:05.000", "time.StampMicro": "Jan _2 15:04:05.000000", "time.StampNano": "Jan _2 15:04:05.000000000",
+		"time.DateTime": "2006-01-02 15:04:05", "time.DateOnly": "2006-01-02", "time.TimeOnly": "15:04:05",
+	}
+	if v, ok := std[ext]; ok {
+		return strconv.Quote(v)
+	}
+	return "\"" + ext + "\""
+}
+
 func expectedFor(s *openapi3.Schema) expectConv {
 	var e expectConv
 	if s == nil {
@@ -57,7 +75,7 @@ func expectedFor(s *openapi3.Schema) expectConv {
 		if s.Format == "date-time" {
 			layout := rfc3339NanoLit
 			if f := extString(s, "x-goag-go-time-format"); f != "" {
-				layout = "\"" + f + "\""
+				layout = timeLayoutLit(f)
 			}
 			e.convs = []ConvCall{{Callee: "time.Parse", Consts: []string{layout, "_"}}}
 			e.goBase = "time.Time"
